@@ -160,7 +160,7 @@ def run_shard(spec):
         sh.feat(feats)
         if any(f.startswith(("boundary", "coll_", "union_")) for f in feats):
             sh.count("boundary_cases")
-        one_case(sh, fa, case, parsed)
+        sh.run_case(one_case, sh, fa, case, parsed)
         if i % 700 == 1:
             sh.sample({"schema": case["schema"], "datum": printable(case["datum"], 300), "parsed": parsed})
     return sh.result()
